@@ -25,6 +25,7 @@ import itertools
 import json
 import sys
 import threading
+import types
 
 import attr
 import attrs
@@ -32,7 +33,9 @@ import attrs
 import c03_ir
 
 ID = "C03"
-RULE = ("field spelling and __init__ participation as a dimension (45% of the classes): private names, explicit aliases, "
+RULE = ("40% of the cases define all their classes in a registered synthetic module whose globals bind `NotImplemented` and "
+        "every `__attr_key_<name>` helper name to junk (attrs merges the class's module globals into the namespace of its "
+        "generated methods); every such class is also a T3 script case (binding of NotImplemented / of each helper). field spelling and __init__ participation as a dimension (45% of the classes): private names, explicit aliases, "
         "init=False fields with no / a constant / a factory default whose values are put in place after construction "
         "(object.__setattr__, also on frozen classes), aliases colliding with an init=False field's alias (`_tag` next to "
         "`tag`, alias='y' next to a field y) preferably between two keyed fields; every such class is also a T3 script case. T3: one `script` case per generated class in the thorough tier (every 12th class in the quick tier) -- the real "
@@ -388,6 +391,40 @@ def _scripted_methods(layer, who):
     return ns
 
 
+# ---- a registered synthetic module whose globals bind the names a generated __eq__ uses to junk: attrs merges the
+# globals of the class's module into the namespace its generated methods are evaluated in
+
+class _JunkNI:
+    """what the hostile module calls `NotImplemented`"""
+
+    def __bool__(self):
+        LOG.append("JUNK:NotImplemented")
+        return False
+
+
+class _JunkK:
+    __hash__ = None
+
+    def __eq__(self, other):
+        LOG.append("JUNK:key")
+        return False
+
+    def __ne__(self, other):
+        LOG.append("JUNK:key!=")
+        return True
+
+
+def junk_key(v):
+    LOG.append("JUNK:keyfn")
+    return _JunkK()
+
+
+HOSTILE = types.ModuleType("c03_hostile_module")
+HOSTILE.__dict__["NotImplemented"] = _JunkNI()
+exec("import attr\n\ndef make_class(*a, **k):\n    return attr.make_class(*a, **k)\n", HOSTILE.__dict__)
+sys.modules[HOSTILE.__name__] = HOSTILE
+
+
 def _metaclass(layer):
     """a metaclass whose == / != between class objects answer scripted outcomes (plain `type` if none)"""
     if not layer or not (layer.get("eq") or layer.get("ne")):
@@ -600,7 +637,20 @@ def build(case):
     cls_kw = _cls_kwargs(cfg)
     base_fields = case["fields"][:split]
     own_fields = case["fields"][split:]
-    M = _metaclass(cfg.get("meta"))      # every class of the case is an instance of it
+    M0 = _metaclass(cfg.get("meta"))      # every class of the case is an instance of it
+    hostile = cfg.get("module") == "hostile"
+    if hostile:
+        # ... and lives in the registered module that binds NotImplemented and every key-helper name to junk
+        prefix = c03_ir.key_prefix()[0]
+        for f in case["fields"]:
+            for n in {f["name"], eff_alias(f), f["name"].lstrip("_")}:
+                HOSTILE.__dict__[prefix + n] = junk_key
+
+    def M(name, bases, body):
+        body = dict(body)
+        if hostile:
+            body["__module__"] = HOSTILE.__name__
+        return M0(name, bases, body)
 
     def mk(f):
         # `field()` of the next-gen API has no cmp=; attr.ib inside define is allowed
@@ -643,7 +693,7 @@ def build(case):
         Base = Root
     # ---- C
     if api == "make_class":
-        C = attr.make_class("C", {f["name"]: mk(f) for f in own_fields}, bases=(Base,),
+        C = (HOSTILE.make_class if hostile else attr.make_class)("C", {f["name"]: mk(f) for f in own_fields}, bases=(Base,),
                             class_body=_scripted_methods(cfg.get("own"), "OWN") or None, **cls_kw)
     else:
         body = {f["name"]: mk(f) for f in own_fields}
@@ -959,6 +1009,7 @@ def _rand_cfg(rng):
         "cache_hash": False,
         "decoy": rng.random() < 0.2,
         "meta": None,
+        "module": "hostile" if rng.random() < 0.4 else "plain",
     }
     if rng.random() < 0.3:
         cfg["meta"] = _rand_layer(rng)
@@ -1092,7 +1143,7 @@ def _field_space(reduced):
 
 
 def _special_spelling(case):
-    return any(f["name"].startswith("_") or f.get("alias") or f.get("init", True) is False for f in case["fields"])
+    return case.get("cfg", {}).get("module") == "hostile" or any(f["name"].startswith("_") or f.get("alias") or f.get("init", True) is False for f in case["fields"])
 
 
 def gen_cases(tier, rng):
@@ -1148,7 +1199,7 @@ def _gen_operand_cases(tier, rng):
 BASE_CFG = {"api": "attr.s", "slots": None, "frozen": False, "cls_eq": "unset", "cls_order": "unset",
             "auto_detect": None, "own": None, "split": 0, "root": "object", "mixin": None, "base_mode": "none",
             "base_own": None, "base_keep": "eq_false", "payload_eq": False, "sub_kind": "plain", "sub_own": None,
-            "foreign_kind": "object", "foreign_own": None, "hash_mode": "none", "cache_hash": False, "decoy": False, "meta": None}
+            "foreign_kind": "object", "foreign_own": None, "hash_mode": "none", "cache_hash": False, "decoy": False, "meta": None, "module": "plain"}
 BASE_HIST = {"hashedX": False, "hashedY": False, "reassignedX": [], "reassignedY": []}
 
 
